@@ -264,6 +264,12 @@ REQ = {
                 tg="ijab", explicit="ijab"),
     "p02": _R(lambda E: E.itmd("p0_2_oo").expand_itmd(fully_expand=False),
               tg="ij", explicit="ij"),
+    # third-order intermediates expressed by the tensors of lower ones: every
+    # tensor name in the result has to follow the configured names
+    "p03ov": _R(lambda E: E.itmd("p0_3_ov").expand_itmd(fully_expand=False),
+                tg="ia", explicit="ia"),
+    "t23nf": _R(lambda E: E.itmd("t2_3").expand_itmd(fully_expand=False),
+                tg="ijab", explicit="ijab", model=(2, 2)),
     "gen53": _R(lambda E: E.idx.get_generic_indices(occ=5, virt=3),
                 "indices", fresh=True),
     "get3": _R(lambda E: E.idx.get_indices("i3j3a3k4"), "indices",
@@ -296,6 +302,7 @@ PROBES = ["e2", "e3", "psi1k", "psi2b", "nf2", "nf4", "ov2", "ev21", "ev12",
 HIST_ONLY_PROBES = ["xg3"]
 CFG_PROBES = ["e2", "psi1k", "psi2b", "nf2", "ev21", "prec2b", "ovp2", "m1",
               "mvp1", "amp1", "amp2", "amp2s", "t22", "t22nf", "p02",
+              "p03ov", "t23nf",
               "real_e2", "expand_e2", "orders", "user", "user_real",
               "rename"]
 CFG_ALPHABET = ["e2", "ev21", "t22", "amp2", "get3"]
